@@ -1258,6 +1258,47 @@ Proof.
   rewrite H1 in Hall. apply Forall_app in Hall. destruct Hall as [_ Hall]. apply Forall_app in Hall. apply Hall.
 Qed.
 
+(* the two things every call of next() needs of what is pending *)
+Definition qok (c : conf) (reg : Z -> bool) (l : list packet) : Prop :=
+  Forall (src_ok reg (c_own c)) l /\ qbound (c_packets c) l.
+Lemma qok_suffix c reg a b : qok c reg (a ++ b) -> qok c reg b.
+Proof. intros [H1 H2]. split; [apply Forall_app in H1; apply H1|apply (qbound_suffix _ a); exact H2]. Qed.
+Lemma qok_nil c reg : qok c reg [].
+Proof. split; [constructor|]. intros pre suf E. symmetry in E. apply app_eq_nil in E. destruct E as [_ E]. subst suf.
+  destruct (Z.to_nat (Z.max (c_packets c) 1)); unfold cnt; cbn; lia. Qed.
+Lemma session_next_spec_q c reg st tx st' :
+  wf_conf c -> qok c reg (pending st) -> session_next c st = (Some tx, st') ->
+  exists dropped used,
+    pending st = dropped ++ used ++ pending st' /\
+    abandon (c_own c) (s_last st) (pending st) = used ++ abandon (c_own c) (s_last st') (pending st') /\
+    (s_last st' = 0 \/ s_last st' = s_last st) /\
+    (pending st <> [] -> dropped ++ used <> []) /\
+    nonnop (map untag (tx_packets tx)) = nonnop (sent (c_own c) used) /\
+    wf_tx reg (c_own c) tx /\
+    (Forall (fun p => is_cont p = false) (pending st) ->
+     forall y, In y (tx_tags tx) <-> In y (first_tags c st) \/ exists v, In v (tx_packets tx) /\ In y (p_tags v)).
+Proof. intros Hw [H1 H2]. apply session_next_spec; assumption. Qed.
+Lemma step_spec_q c reg st tx st' :
+  wf_conf c -> qok c reg (pending st) -> session_next c st = (Some tx, st') ->
+  exists dropped used,
+    pending st = dropped ++ used ++ pending st' /\
+    abandon (c_own c) (s_last st) (pending st) = used ++ abandon (c_own c) (s_last st') (pending st') /\
+    (s_last st' = 0 \/ s_last st' = s_last st) /\
+    (pending st <> [] -> dropped ++ used <> []) /\
+    map untag_d (fst (recv_tx reg (c_own c) tx)) = flat_map (direct (c_own c)) (flatten used) /\
+    (snd (recv_tx reg (c_own c) tx) = 0 \/
+     (snd (recv_tx reg (c_own c) tx) = E_COUNT /\ fst (recv_tx reg (c_own c) tx) = [] /\
+      exists o, tx = TMulti o /\ c_in o = [])).
+Proof. intros Hw [H1 H2]. apply step_spec; assumption. Qed.
+
+Lemma flatten_app a b : flatten (a ++ b) = flatten a ++ flatten b.
+Proof. apply flat_map_app. Qed.
+Lemma flatten_plain l : Forall (fun p => is_cont p = false) l -> flatten l = l.
+Proof.
+  intro H. induction H as [|p l Hp _ IH]; [reflexivity|]. unfold flatten in *. cbn [flat_map].
+  rewrite (expand_plain _ Hp), IH. reflexivity.
+Qed.
+
 Lemma app_length_lt {A} (a b c : list A) : a ++ b <> [] -> (length c < length (a ++ b ++ c))%nat.
 Proof.
   intro H. rewrite app_assoc, app_length. destruct (a ++ b); [congruence|]. cbn [length]. lia.
@@ -1271,15 +1312,15 @@ Proof. reflexivity. Qed.
 
 (* drain_delivers_queue, for every state and every fuel that exceeds the number of pending packets *)
 Lemma drain_fuel_delivers c reg : wf_conf c -> forall fuel st,
-  (length (pending st) < fuel)%nat -> Forall (src_ok reg (c_own c)) (pending st) ->
+  (length (pending st) < fuel)%nat -> qok c reg (pending st) ->
   map untag_d (deliveries (drain_fuel c reg fuel st)) =
-  flat_map (direct (c_own c)) (abandon (c_own c) (s_last st) (pending st)).
+  flat_map (direct (c_own c)) (flatten (abandon (c_own c) (s_last st) (pending st))).
 Proof.
   intro Hw. induction fuel as [|f IH]; intros st Hf Hall; [lia|].
   cbn [drain_fuel]. destruct (session_next c st) as [[tx|] st'] eqn:E.
-  - destruct (step_spec _ reg _ _ _ Hw Hall E) as [dropped [used [H1 [H2 [H3 [H4 [H5 _]]]]]]].
+  - destruct (step_spec_q _ reg _ _ _ Hw Hall E) as [dropped [used [H1 [H2 [H3 [H4 [H5 _]]]]]]].
     destruct (recv_tx reg (c_own c) tx) as [d e]. cbn [fst] in H5.
-    rewrite deliveries_cons. cbn [st_dlv]. rewrite map_app, H5, H2, flat_map_app. f_equal.
+    rewrite deliveries_cons. cbn [st_dlv]. rewrite map_app, H5, H2, flatten_app, flat_map_app. f_equal.
     destruct (pending st') as [|x r] eqn:Ep; [reflexivity|]. cbn [is_nil]. rewrite <- Ep in H1 |- *.
     clear H3.
     assert (Hne : pending st <> []).
@@ -1288,15 +1329,61 @@ Proof.
     rewrite IH.
     + reflexivity.
     + pose proof (app_length_lt dropped used (pending st') (H4 Hne)) as HL. rewrite <- H1 in HL. lia.
-    + rewrite H1 in Hall. apply Forall_suffix in Hall. apply Forall_suffix in Hall. exact Hall.
+    + rewrite H1 in Hall. apply qok_suffix in Hall. apply qok_suffix in Hall. exact Hall.
   - apply session_next_none in E. rewrite E. reflexivity.
 Qed.
 
-Lemma queue_src_ok reg i q :
-  Forall (fun p => queueable p = true) q -> all_reg reg i q -> Forall (src_ok reg i) q.
+Lemma queueable_plain q : Forall (fun p => queueable p = true) q -> Forall (fun p => is_cont p = false) q.
 Proof.
-  intros H1 H2. unfold all_reg in H2. rewrite Forall_forall in *. intros p Hp.
-  split; [apply queueable_packable; apply H1; exact Hp|apply H2; exact Hp].
+  intro H. rewrite Forall_forall in *. intros p Hp. apply packable_not_cont, queueable_packable, H, Hp.
+Qed.
+
+Lemma queue_qok c reg q :
+  wf_conf c -> Forall (fun p => queueable p = true) q -> all_reg reg (c_own c) q -> qok c reg q.
+Proof.
+  intros [Hi HNP] H1 H2. split.
+  - unfold all_reg in H2. rewrite Forall_forall in *. intros p Hp.
+    apply src_ok_plain; [exact Hi|apply queueable_packable; apply H1; exact Hp|apply H2; exact Hp].
+  - apply qbound_plain; [exact HNP|apply queueable_plain; exact H1].
+Qed.
+
+(* queues of ordinary packets and containers *)
+Lemma item_ok_src_ok reg i p : i <> 0 -> item_ok reg i p = true -> src_ok reg i p.
+Proof.
+  intros Hi H. unfold item_ok in H. destruct (is_cont p) eqn:Ec.
+  - unfold cont_ok in H. rewrite Ec in H. cbn [andb] in H.
+    apply andb_prop in H. destruct H as [H H3]. apply andb_prop in H. destruct H as [H1 H2].
+    rewrite forallb_forall in H3.
+    unfold src_ok. rewrite expand_norm, Ec.
+    split; [right; split; [exact Ec|split; lia]|]. split.
+    + rewrite Forall_forall. intros v Hv. specialize (H3 v Hv).
+      apply andb_prop in H3. destruct H3 as [H3 H5]. apply andb_prop in H3. destruct H3 as [H3 H4].
+      unfold in_ok. split; [apply queueable_packable; exact H3|]. split; [lia|].
+      apply orb_prop in H5. destruct H5 as [H5|H5]; [left; lia|right].
+      apply andb_prop in H5. apply H5.
+    + intro Ho. rewrite Forall_forall. intros v Hv. specialize (H3 v Hv).
+      apply andb_prop in H3. destruct H3 as [_ H5]. apply orb_prop in H5. destruct H5 as [H5|H5]; [lia|].
+      rewrite Ho in H5. discriminate.
+  - apply andb_prop in H. destruct H as [H1 H2]. apply src_ok_plain; [exact Hi|apply queueable_packable; exact H1|].
+    apply orb_prop in H2. exact H2.
+Qed.
+
+Lemma items_qok c reg q :
+  wf_conf c -> Forall (fun p => item_ok reg (c_own c) p = true) q -> len (flatten q) <= FRAG_MAX -> qok c reg q.
+Proof.
+  intros [Hi _] H HB. split.
+  - rewrite Forall_forall in *. intros p Hp. apply item_ok_src_ok; [exact Hi|apply H; exact Hp].
+  - apply qbound_total. exact HB.
+Qed.
+
+(* drain_delivers_queue for queues that may hold containers: the delivered sequence is the flattening *)
+Lemma drain_delivers_items c reg last q :
+  wf_conf c -> Forall (fun p => item_ok reg (c_own c) p = true) q -> len (flatten q) <= FRAG_MAX ->
+  map untag_d (deliveries (drain c reg (mkS q None last))) =
+  flat_map (direct (c_own c)) (flatten (abandon (c_own c) last q)).
+Proof.
+  intros Hw Hq HB. unfold drain.
+  rewrite (drain_fuel_delivers c reg Hw); [reflexivity|lia|]. apply items_qok; assumption.
 Qed.
 
 Lemma drain_delivers_queue c reg last q :
@@ -1305,13 +1392,14 @@ Lemma drain_delivers_queue c reg last q :
   flat_map (direct (c_own c)) (abandon (c_own c) last q).
 Proof.
   intros Hw Hq Hr. unfold drain.
-  rewrite (drain_fuel_delivers c reg Hw); [reflexivity|lia|].
-  apply queue_src_ok; assumption.
+  rewrite (drain_fuel_delivers c reg Hw); [|lia|apply queue_qok; assumption].
+  cbn [s_last pending s_peek s_q]. rewrite flatten_plain; [reflexivity|].
+  apply abandon_Forall. apply queueable_plain. exact Hq.
 Qed.
 
 (* every step of a drain is one call of next() on a state whose pending packets are a suffix of the queue *)
 Lemma drain_fuel_steps c reg : wf_conf c -> forall fuel st s,
-  Forall (src_ok reg (c_own c)) (pending st) ->
+  qok c reg (pending st) ->
   In s (drain_fuel c reg fuel st) ->
   exists st0 pre, pending st = pre ++ pending st0 /\
     session_next c st0 = (Some (st_tx s), st_after s) /\
@@ -1323,9 +1411,9 @@ Proof.
   destruct Hin as [Hs|Hin].
   - subst s. exists st, []. cbn [st_tx st_after st_dlv st_err]. repeat split; assumption.
   - destruct (is_nil (pending st')); [destruct Hin|].
-    destruct (step_spec _ reg _ _ _ Hw Hall E) as [dropped [used [H1 _]]].
-    assert (Hall' : Forall (src_ok reg (c_own c)) (pending st')).
-    { rewrite H1 in Hall. apply Forall_suffix in Hall. apply Forall_suffix in Hall. exact Hall. }
+    destruct (step_spec_q _ reg _ _ _ Hw Hall E) as [dropped [used [H1 _]]].
+    assert (Hall' : qok c reg (pending st')).
+    { rewrite H1 in Hall. apply qok_suffix in Hall. apply qok_suffix in Hall. exact Hall. }
     destruct (IH _ _ Hall' Hin) as [st0 [pre [P1 P2]]].
     exists st0, (dropped ++ used ++ pre). split; [|exact P2].
     rewrite H1, P1. repeat rewrite <- app_assoc. reflexivity.
@@ -1333,12 +1421,12 @@ Qed.
 
 (* progress: a call of next() with something pending consumes at least one packet *)
 Lemma progress c reg st tx st' :
-  wf_conf c -> Forall (src_ok reg (c_own c)) (pending st) ->
+  wf_conf c -> qok c reg (pending st) ->
   session_next c st = (Some tx, st') -> pending st <> [] ->
   (length (pending st') < length (pending st))%nat /\ exists pre, pre <> [] /\ pending st = pre ++ pending st'.
 Proof.
   intros Hw Hall H Hne.
-  destruct (session_next_spec _ reg _ _ _ Hw Hall H) as [dropped [used [H1 [_ [_ [H4 _]]]]]].
+  destruct (session_next_spec_q _ reg _ _ _ Hw Hall H) as [dropped [used [H1 [_ [_ [H4 _]]]]]].
   split.
   - pose proof (app_length_lt dropped used (pending st') (H4 Hne)) as HL. rewrite <- H1 in HL. exact HL.
   - exists (dropped ++ used). split; [exact (H4 Hne)|]. rewrite H1, app_assoc. reflexivity.
@@ -1347,7 +1435,7 @@ Qed.
 (* the fuel of drain never runs out: more fuel changes nothing, and the last step leaves nothing pending *)
 Lemma drain_fuel_stable c reg : wf_conf c -> forall f1 f2 st,
   (length (pending st) < f1)%nat -> (length (pending st) < f2)%nat ->
-  Forall (src_ok reg (c_own c)) (pending st) ->
+  qok c reg (pending st) ->
   drain_fuel c reg f1 st = drain_fuel c reg f2 st.
 Proof.
   intro Hw. induction f1 as [|f1 IH]; intros f2 st H1 H2 Hall; [lia|].
@@ -1356,15 +1444,15 @@ Proof.
   destruct (recv_tx reg (c_own c) tx) as [d e]. f_equal.
   destruct (pending st') as [|x r] eqn:Ep; [reflexivity|]. cbn [is_nil].
   assert (Hne : pending st <> []).
-  { destruct (session_next_spec _ reg _ _ _ Hw Hall E) as [dropped [used [G1 [G2 _]]]].
+  { destruct (session_next_spec_q _ reg _ _ _ Hw Hall E) as [dropped [used [G1 [G2 _]]]].
     intro Hc. rewrite Hc in G1. destruct dropped; [|discriminate]. destruct used; [|discriminate].
     cbn [app] in G1. rewrite Ep in G1. discriminate. }
   destruct (progress _ reg _ _ _ Hw Hall E Hne) as [HL [pre [_ Hpre]]].
-  apply IH; try lia. rewrite Hpre in Hall. apply Forall_suffix in Hall. exact Hall.
+  apply IH; try lia. rewrite Hpre in Hall. apply qok_suffix in Hall. exact Hall.
 Qed.
 
 Lemma drain_fuel_ends_empty c reg : wf_conf c -> forall fuel st s,
-  (length (pending st) < fuel)%nat -> Forall (src_ok reg (c_own c)) (pending st) ->
+  (length (pending st) < fuel)%nat -> qok c reg (pending st) ->
   last (drain_fuel c reg fuel st) s = s \/ pending (st_after (last (drain_fuel c reg fuel st) s)) = [].
 Proof.
   intro Hw. induction fuel as [|f IH]; intros st s Hf Hall; [lia|].
@@ -1373,12 +1461,12 @@ Proof.
   destruct (pending st') as [|x r] eqn:Ep; cbn [is_nil].
   - right. cbn [last st_after]. exact Ep.
   - assert (Hne : pending st <> []).
-    { destruct (session_next_spec _ reg _ _ _ Hw Hall E) as [dropped [used [G1 [G2 _]]]].
+    { destruct (session_next_spec_q _ reg _ _ _ Hw Hall E) as [dropped [used [G1 [G2 _]]]].
       intro Hc. rewrite Hc in G1. destruct dropped; [|discriminate]. destruct used; [|discriminate].
       cbn [app] in G1. rewrite Ep in G1. discriminate. }
     destruct (progress _ reg _ _ _ Hw Hall E Hne) as [HL [pre [_ Hpre]]].
-    assert (Hall' : Forall (src_ok reg (c_own c)) (pending st')).
-    { rewrite Hpre in Hall. apply Forall_suffix in Hall. exact Hall. }
+    assert (Hall' : qok c reg (pending st')).
+    { rewrite Hpre in Hall. apply qok_suffix in Hall. exact Hall. }
     assert (Hf' : (length (pending st') < f)%nat) by lia.
     set (s0 := mkStep tx st' d e).
     destruct (drain_fuel c reg f st') as [|y l] eqn:ED.
@@ -1406,10 +1494,10 @@ Proof.
       destruct (drain_fuel_steps c reg Hw _ _ _ Hall' Hin) as [st0 [pre0 [Q1 [Q2 _]]]].
       cbn [s0 st_tx st_after] in Q2.
       (* next() from st0 ends in st' while st0's pending is a suffix of st': no progress *)
-      assert (Hall0 : Forall (src_ok reg (c_own c)) (pending st0)).
-      { rewrite Q1 in Hall'. apply Forall_suffix in Hall'. exact Hall'. }
+      assert (Hall0 : qok c reg (pending st0)).
+      { rewrite Q1 in Hall'. apply qok_suffix in Hall'. exact Hall'. }
       assert (Hne0 : pending st0 <> []).
-      { intro Hc. destruct (session_next_spec _ reg _ _ _ Hw Hall0 Q2) as [dr [us [G1 _]]].
+      { intro Hc. destruct (session_next_spec_q _ reg _ _ _ Hw Hall0 Q2) as [dr [us [G1 _]]].
         rewrite Hc in G1. destruct dr; [|discriminate]. destruct us; [|discriminate].
         cbn [app] in G1. rewrite Ep in G1. discriminate. }
       destruct (progress _ reg _ _ _ Hw Hall0 Q2 Hne0) as [HL0 _].
@@ -1430,6 +1518,44 @@ Proof.
   destruct (is_own i x); [|reflexivity]. rewrite orb_true_r in E1. discriminate.
 Qed.
 
+(* the loop on ordinary packets, started by nextPacket *)
+Lemma np_loop_struct_plain0 F i fuel l o' k rest :
+  np_loop F i fuel l 0 false (mkC i fl_multi [] []) = (o', k, rest) ->
+  Forall (fun p => packable p = true) l -> Z.of_nat fuel <= 65535 ->
+  exists used kept,
+    l = used ++ optl k ++ rest /\ c_in o' = map (norm i) kept /\ incl kept used /\
+    (fuel <> O -> l <> [] -> used <> []) /\
+    f_len (c_fl o') = len (c_in o') /\ len (c_in o') <= Z.of_nat fuel.
+Proof.
+  intros H Hp Hf. destruct (plain_items i l Hp) as [A1 [A2 A3]].
+  pose proof (cnt_plain_firstn fuel l A3) as Hc.
+  destruct (np_loop_struct _ _ _ _ _ _ _ _ _ _ H A1 A2 eq_refl (fun _ => Forall_nil _) eq_refl)
+    as [used [kept [H1 [H2 [_ [_ [_ [H6 [_ [H8 [H9 [_ H11]]]]]]]]]]]].
+  { cbn [c_in]. rewrite len_nil. lia. }
+  cbn [c_in app] in H2, H11. rewrite len_nil in H11.
+  exists used, kept. split; [exact H1|]. split.
+  - rewrite H2. apply flat_map_expand_plain. rewrite Forall_forall in *. intros p Hp'. apply A3.
+    rewrite H1. apply in_or_app. left. apply H6. exact Hp'.
+  - split; [exact H6|]. split; [exact (H8 eq_refl)|]. split; [exact H9|lia].
+Qed.
+
+Lemma np_loop_prefix F i : forall fuel l s m o o' k rest,
+  np_loop F i fuel l s m o = (o', k, rest) -> Forall (fun p => packable p = true) l ->
+  exists X, c_in o' = c_in o ++ X.
+Proof.
+  induction fuel as [|f IH]; intros l s m o o' k rest H Hp.
+  - cbn [np_loop] in H. inversion H; subst. exists []. rewrite app_nil_r. reflexivity.
+  - destruct l as [|n r]; [cbn [np_loop] in H; inversion H; subst; exists []; rewrite app_nil_r; reflexivity|].
+    cbn [np_loop] in H. inversion Hp as [|? ? Hn Hr]; subst.
+    destruct (is_nop n && (((0 <? s) && negb m) || is_own i n)); [exact (IH _ _ _ _ _ _ _ H Hr)|].
+    destruct ((0 <? s) && (F <? s + psize n)); [inversion H; subst; exists []; rewrite app_nil_r; reflexivity|].
+    assert (Hpn : packable (norm i n) = true) by (rewrite packable_norm; exact Hn).
+    rewrite (write_unpack_packable _ (norm i n) Hpn) in H.
+    destruct (IH _ _ _ _ _ _ _ H Hr) as [X HX]. cbn [c_in] in HX.
+    exists (norm i n :: X). rewrite HX.
+    destruct (negb (is_own i n) && negb m); cbn [c_in]; rewrite <- app_assoc; reflexivity.
+Qed.
+
 Lemma np_loop_first F i f n r o o' k rest :
   is_nop n && is_own i n = false -> Forall (fun p => packable p = true) (n :: r) ->
   np_loop F i (S f) (n :: r) 0 false o = (o', k, rest) -> c_in o = [] ->
@@ -1442,7 +1568,7 @@ Proof.
   assert (Ha : c_in o1 = []) by (subst o1; destruct md; exact Ho).
   assert (Hpn' : packable (norm i n) = true) by (rewrite packable_norm; exact Hpn).
   rewrite (write_unpack_packable o1 (norm i n) Hpn') in H.
-  destruct (np_loop_struct _ _ _ _ _ _ _ _ _ _ H Hpr) as [used [kept [_ [H2 _]]]].
+  destruct (np_loop_prefix _ _ _ _ _ _ _ _ _ _ H Hpr) as [X H2].
   cbn [c_in] in H2. rewrite Ha in H2. cbn [app] in H2. eexists. exact H2.
 Qed.
 
@@ -1454,6 +1580,14 @@ Proof.
   - intro H. exists v. split; [exact H|reflexivity].
 Qed.
 
+Lemma as_tx_packable i p g : packable p = true -> as_tx (set_tags (norm i p) g) = TSingle (set_tags (norm i p) g).
+Proof.
+  intro H. unfold as_tx. change (is_cont (set_tags (norm i p) g)) with (is_cont (norm i p)).
+  rewrite is_cont_norm, (packable_not_cont _ H). reflexivity.
+Qed.
+Lemma as_tx_packable_norm i p : packable p = true -> as_tx (norm i p) = TSingle (norm i p).
+Proof. intro H. unfold as_tx. rewrite is_cont_norm, (packable_not_cont _ H). reflexivity. Qed.
+
 Lemma next_packet_first F NP i n q t x k rest :
   next_packet F NP i (Some n) q t = (Some x, k, rest) ->
   is_nop n && is_own i n = false -> Forall (fun p => packable p = true) (n :: q) ->
@@ -1462,7 +1596,7 @@ Proof.
   intros H Hn Hp. unfold next_packet in H. inversion Hp as [|? ? Hpn Hpq]; subst.
   destruct ((NP <=? 1) || is_nil q) eqn:Efast.
   - destruct (is_own i n) eqn:Eo.
-    + inversion H; subst. eexists. split; reflexivity.
+    + rewrite (as_tx_packable i n _ Hpn) in H. inversion H; subst. eexists. split; reflexivity.
     + rewrite (write_unpack_packable _ n Hpn) in H. inversion H; subst. cbn [first_packet c_in app].
       exists n. split; [reflexivity|]. rewrite (norm_foreign i n Eo). reflexivity.
   - apply orb_false_elim in Efast. destruct Efast as [E1 _].
@@ -1504,9 +1638,9 @@ Proof.
     as [[o' k'] r'] eqn:EL.
   inversion EN; subst. clear EN.
   pose proof (np_loop_carry _ _ _ _ _ _ _ _ _ _ EL) as Hknop.
-  destruct (np_loop_struct _ _ _ _ _ _ _ _ _ _ EL Hp1) as [used [kept [S1 [_ [_ [_ [_ [_ [_ S8]]]]]]]]].
+  destruct (np_loop_struct_plain0 _ _ _ _ _ _ _ EL Hp1 ltac:(lia)) as [used [kept [S1 [_ [_ [S8 _]]]]]].
   assert (Hfuel : Z.to_nat (c_packets c) <> O) by (apply orb_false_elim in Efast; lia).
-  specialize (S8 eq_refl Hfuel ltac:(discriminate)).
+  specialize (S8 Hfuel ltac:(discriminate)).
   destruct used as [|x u]; [congruence|]. cbn [app optl] in S1. injection S1 as Hx Hq1. subst x.
   assert (Hkin : In k q1) by (rewrite Hq1; apply in_or_app; right; left; reflexivity).
   assert (Hprest : Forall (fun p => packable p = true) (k :: rest)).
@@ -1517,6 +1651,9 @@ Proof.
   unfold session_next, pick. cbn [s_peek s_q s_last].
   change (match c_ptags c with Some t => set_tags k t | None => k end) with (retag c k).
   rewrite is_own_retag.
+  assert (Hka : as_tx (norm (c_own c) (retag c k)) = TSingle (norm (c_own c) (retag c k))).
+  { apply as_tx_packable_norm. rewrite packable_retag. inversion Hprest; assumption. }
+  rewrite Hka.
   destruct (is_nil rest && is_own (c_own c) k).
   { eexists _, _. split; [reflexivity|]. eexists. split; [reflexivity|]. apply retag_untag_norm. }
   destruct (f_crypt (p_fl (retag c k)) && is_own (c_own c) k).
@@ -1546,9 +1683,15 @@ Lemma session_next_budget c st o st' :
   sum_size (c_in o) <= c_frag c /\ len (c_in o) <= c_packets c /\ f_len (c_fl o) = len (c_in o).
 Proof.
   intros [Hi HNP] Hq H Hlen.
-  destruct (session_next_cases _ _ _ _ H) as [[p [Hc _]]|[[n0 [q [dropped [n1' [n1 [q1 [Hpe [Hsplit [_ [Hrel Hfin]]]]]]]]]]|[n0 [q [_ [_ [_ [Hc _]]]]]]]].
-  { discriminate. }
-  2:{ discriminate. }
+  assert (Hplain : forall n0, In n0 (pending st) -> as_tx (norm (c_own c) (retag c n0)) = TSingle (norm (c_own c) (retag c n0))).
+  { intros n0 Hin. apply as_tx_packable_norm. rewrite packable_retag. apply queueable_packable.
+    rewrite Forall_forall in Hq. apply Hq. exact Hin. }
+  destruct (session_next_cases _ _ _ _ H) as [[p [Hc [_ Hsub]]]|[[n0 [q [dropped [n1' [n1 [q1 [Hpe [Hsplit [_ [Hrel Hfin]]]]]]]]]]|[n0 [q [Hpe [_ [_ [Hc _]]]]]]]].
+  { exfalso. destruct Hsub as [[_ Hp]|[[n0 [Hpe [_ Hp]]]|[n0 [q [_ [_ Hp]]]]]]; subst p.
+    - rewrite (plain_as_tx (c_own c) c (keepalive (c_own c) []) eq_refl) in Hc. discriminate.
+    - rewrite (Hplain n0) in Hc by (rewrite Hpe; left; reflexivity). discriminate.
+    - discriminate. }
+  2:{ rewrite (Hplain n0) in Hc by (rewrite Hpe; left; reflexivity). discriminate. }
   assert (Hsuf : Forall (fun p => packable p = true /\ 0 <= p_len p) (n1' :: q1)).
   { rewrite Hsplit in Hq. apply Forall_suffix in Hq. rewrite Forall_forall in *. intros x Hx.
     split; [apply queueable_packable|apply queueable_len]; apply Hq; exact Hx. }
@@ -1564,8 +1707,8 @@ Proof.
   clear Hx.
   unfold next_packet in EN.
   destruct ((c_packets c <=? 1) || is_nil q1) eqn:Efast.
-  - destruct (is_own (c_own c) n1); [inversion EN|].
-    inversion Hp1' as [|? ? Hpn _]; subst.
+  - inversion Hp1' as [|? ? Hpn _]; subst.
+    destruct (is_own (c_own c) n1); [rewrite (as_tx_packable _ n1 _ Hpn) in EN; inversion EN|].
     rewrite (write_unpack_packable _ n1 Hpn) in EN. inversion EN; subst. cbn [c_in app] in Hlen.
     change (len [n1]) with 1 in Hlen. lia.
   - apply orb_false_elim in Efast. destruct Efast as [E1 _].
@@ -1577,10 +1720,7 @@ Proof.
       - destruct (c_in o') as [|v [|w r]]; inversion Hun; reflexivity.
       - inversion Hun; reflexivity. }
     subst o0.
-    destruct (np_loop_flags _ _ _ _ _ _ _ _ _ _ EL Hp1' eq_refl eq_refl) as [G1 [G2 _]].
-    { cbn [c_in]. rewrite len_nil. lia. }
-    { intros _. constructor. }
-    cbn [c_in] in G2. rewrite len_nil in G2.
+    destruct (np_loop_struct_plain0 _ _ _ _ _ _ _ EL Hp1' ltac:(lia)) as [_ [_ [_ [_ [_ [_ [G1 G2]]]]]]].
     pose proof (np_loop_budget _ _ _ _ _ _ _ _ _ _ EL Hp1 eq_refl (Forall_nil _)) as B.
     cbn [c_in] in B. specialize (B ltac:(right; rewrite len_nil; lia)).
     split; [destruct B; [assumption|lia]|]. split; [lia|exact G1].
@@ -1640,11 +1780,11 @@ Lemma drain_errors c reg last q s :
   st_err s = 0 \/ (st_err s = E_COUNT /\ st_dlv s = [] /\ exists o, st_tx s = TMulti o /\ c_in o = []).
 Proof.
   intros Hw Hq Hr Hin.
-  pose proof (queue_src_ok reg _ _ Hq Hr) as Hall.
+  pose proof (queue_qok c reg _ Hw Hq Hr) as Hall.
   destruct (drain_fuel_steps c reg Hw _ (mkS q None last) _ Hall Hin) as [st0 [pre [P1 [P2 P3]]]].
-  assert (Hall0 : Forall (src_ok reg (c_own c)) (pending st0)).
-  { change (pending (mkS q None last)) with q in P1. rewrite P1 in Hall. apply Forall_suffix in Hall. exact Hall. }
-  destruct (step_spec _ reg _ _ _ Hw Hall0 P2) as [_ [_ [_ [_ [_ [_ [_ He]]]]]]].
+  assert (Hall0 : qok c reg (pending st0)).
+  { change (pending (mkS q None last)) with q in P1. rewrite P1 in Hall. apply qok_suffix in Hall. exact Hall. }
+  destruct (step_spec_q _ reg _ _ _ Hw Hall0 P2) as [_ [_ [_ [_ [_ [_ [_ He]]]]]]].
   rewrite P3 in He. cbn [fst snd] in He. exact He.
 Qed.
 
@@ -1685,13 +1825,13 @@ Lemma drain_terminates c reg lg q :
   (forall s0, drain c reg (mkS q None lg) = [] \/
               pending (st_after (last (drain c reg (mkS q None lg)) s0)) = []).
 Proof.
-  intros Hw Hq Hr. pose proof (queue_src_ok reg _ _ Hq Hr) as Hall. split; [|split].
+  intros Hw Hq Hr. pose proof (queue_qok c reg _ Hw Hq Hr) as Hall. split; [|split].
   - intro extra. unfold drain. apply (drain_fuel_stable c reg Hw); cbn [pending s_peek s_q]; try lia. exact Hall.
   - intros s Hin.
     destruct (drain_fuel_steps c reg Hw _ (mkS q None lg) _ Hall Hin) as [st0 [pre [P1 [P2 _]]]].
     exists st0, pre. split; [exact P1|]. split; [exact P2|]. intro Hne.
-    assert (Hall0 : Forall (src_ok reg (c_own c)) (pending st0)).
-    { change (pending (mkS q None lg)) with q in P1. rewrite P1 in Hall. apply Forall_suffix in Hall. exact Hall. }
+    assert (Hall0 : qok c reg (pending st0)).
+    { change (pending (mkS q None lg)) with q in P1. rewrite P1 in Hall. apply qok_suffix in Hall. exact Hall. }
     apply (progress c reg st0 _ _ Hw Hall0 P2 Hne).
   - intro s0. unfold drain.
     destruct (drain_fuel c reg (S (length (pending (mkS q None lg)))) (mkS q None lg)) as [|y l] eqn:ED;
@@ -1712,7 +1852,7 @@ Lemma drain_batches_within_budget c reg last q s o :
   In s (drain c reg (mkS q None last)) -> st_tx s = TMulti o -> 1 < len (c_in o) ->
   sum_size (c_in o) <= c_frag c /\ len (c_in o) <= c_packets c /\ f_len (c_fl o) = len (c_in o).
 Proof.
-  intros Hw Hq Hr Hin Htx Hlen. pose proof (queue_src_ok reg _ _ Hq Hr) as Hall.
+  intros Hw Hq Hr Hin Htx Hlen. pose proof (queue_qok c reg _ Hw Hq Hr) as Hall.
   destruct (drain_fuel_steps c reg Hw _ (mkS q None last) _ Hall Hin) as [st0 [pre [P1 [P2 _]]]].
   rewrite Htx in P2. change (pending (mkS q None last)) with q in P1.
   apply (session_next_budget c st0 o (st_after s) Hw); [|exact P2|exact Hlen].
@@ -1724,8 +1864,8 @@ Lemma session_next_tags c reg st tx st' :
   session_next c st = (Some tx, st') ->
   forall y, In y (tx_tags tx) <-> In y (first_tags c st) \/ exists v, In v (tx_packets tx) /\ In y (p_tags v).
 Proof.
-  intros Hw Hq Hr H. pose proof (queue_src_ok reg _ _ Hq Hr) as Hall.
-  destruct (session_next_spec _ reg _ _ _ Hw Hall H) as [_ [_ [_ [_ [_ [_ [_ [_ HT]]]]]]]]. exact HT.
+  intros Hw Hq Hr H. pose proof (queue_qok c reg _ Hw Hq Hr) as Hall.
+  destruct (session_next_spec_q _ reg _ _ _ Hw Hall H) as [_ [_ [_ [_ [_ [_ [_ [_ HT]]]]]]]]. apply HT. apply queueable_plain. exact Hq.
 Qed.
 
 Lemma carry_over_q c st tx st' k :
@@ -1744,7 +1884,7 @@ Lemma progress_q c reg st tx st' :
   session_next c st = (Some tx, st') -> pending st <> [] ->
   (length (pending st') < length (pending st))%nat /\ exists pre, pre <> [] /\ pending st = pre ++ pending st'.
 Proof.
-  intros Hw Hq Hr. apply (progress c reg); [exact Hw|]. apply queue_src_ok; assumption.
+  intros Hw Hq Hr. apply (progress c reg); [exact Hw|]. apply queue_qok; assumption.
 Qed.
 
 (* ------------------------------------------------------------------ 8. the proxy's queue for one of its clients *)
@@ -1782,47 +1922,53 @@ Qed.
 
 (* one poll: what it consumes, what it sends, what it leaves (the peek slot is emptied by pick) *)
 Lemma pc_next_spec c st tx st' :
-  wf_conf c -> Forall (src_ok noreg (c_own c)) (pending st) ->
+  wf_conf c -> qok c noreg (pending st) ->
   pc_next c st = (Some tx, st') ->
   exists used,
     pending st = used ++ pending st' /\
     (pending st <> [] -> used <> []) /\
-    nonnop (map untag (tx_packets tx)) = nonnop (map (fun p => untag (norm (c_own c) p)) used) /\
+    nonnop (map untag (tx_packets tx)) = nonnop (sent (c_own c) used) /\
     wf_tx noreg (c_own c) tx.
 Proof.
-  intros [Hi HNP] Hall H. unfold pc_next in H.
+  intros [Hi HNP] [Hall HQ] H. unfold pc_next in H.
   destruct (pick_spec c st) as [[Hp Hk]|[n0 [q [Hp Hk]]]]; rewrite Hk in H.
   - destruct (c_inter c); [discriminate|]. rewrite keepalive_own in H. cbn [is_nil andb] in H.
     inversion H; subst. exists []. rewrite Hp. change (pending (mkS [] None 0)) with (@nil packet).
-    split; [reflexivity|]. split; [congruence|]. split.
+    split; [reflexivity|]. split; [congruence|].
+    rewrite (as_tx_packable_norm (c_own c) (keepalive (c_own c) []) eq_refl). split.
     + cbn [tx_packets map]. rewrite nonnop_cons_nop; [reflexivity|]. rewrite is_nop_untag, is_nop_norm. reflexivity.
     + cbn [wf_tx]. split; [apply norm_own_dev; apply keepalive_own|]. rewrite packable_norm. reflexivity.
-  - rewrite Hp in Hall |- *. inversion Hall as [|? ? Hn0 Hq]; subst.
+  - rewrite Hp in Hall, HQ |- *. inversion Hall as [|? ? Hn0 Hq]; subst.
     destruct (is_nil q && is_own (c_own c) n0) eqn:E1.
     + inversion H; subst. apply andb_prop in E1. destruct E1 as [Eq Eo]. destruct q; [|discriminate].
       exists [n0]. change (pending (mkS [] None 0)) with (@nil packet).
-      split; [reflexivity|]. split; [congruence|]. split; [reflexivity|].
-      cbn [wf_tx]. split; [apply norm_own_dev; exact Eo|]. rewrite packable_norm. apply Hn0.
+      split; [reflexivity|]. split; [congruence|]. split.
+      * rewrite tx_packets_as_tx. unfold sent. cbn [map flat_map]. rewrite app_nil_r. reflexivity.
+      * apply wf_tx_as_tx_norm; [exact Hi|exact Hn0|exact Eo|]. rewrite len_expand_norm.
+        pose proof (qbound_here _ _ HQ) as HB.
+        pose proof (cnt_firstn_head (Z.to_nat (Z.max (c_packets c) 1)) n0 [] ltac:(lia)). lia.
     + destruct (next_packet (c_frag c) (c_packets c) (c_own c) (Some n0) q (p_tags n0)) as [[o k] rest] eqn:EN.
-      destruct (next_packet_spec noreg _ _ _ _ _ _ _ _ _ EN Hi HNP Hall)
+      destruct (next_packet_spec noreg _ _ _ _ _ _ _ _ _ EN Hi Hall (qbound_here _ _ HQ))
         as [x [u [kept [H0 [H1 [H2 [H3 [H4 [H5 _]]]]]]]]].
       subst o. inversion H; subst. exists (n0 :: u). rewrite pending_mkS.
       split; [reflexivity|]. split; [congruence|]. split; [|exact H5].
-      rewrite H2, nonnop_map_untag_norm, H3, <- nonnop_map_untag_norm. reflexivity.
+      change (map untag (flat_map expand (map (norm (c_own c)) kept))) with (sent (c_own c) kept) in H2.
+      rewrite H2, sent_nonnop, H3, <- sent_nonnop. reflexivity.
 Qed.
 
 Lemma pc_step_spec c st tx st' :
-  wf_conf c -> Forall (src_ok noreg (c_own c)) (pending st) ->
+  wf_conf c -> qok c noreg (pending st) ->
   pc_next c st = (Some tx, st') ->
   exists used,
     pending st = used ++ pending st' /\ (pending st <> [] -> used <> []) /\
-    map untag_d (fst (recv_client (c_own c) tx)) = flat_map (direct (c_own c)) used /\
-    nonnop (map untag (tx_packets tx)) = nonnop (map (fun p => untag (norm (c_own c) p)) used).
+    map untag_d (fst (recv_client (c_own c) tx)) = flat_map (direct (c_own c)) (flatten used) /\
+    nonnop (map untag (tx_packets tx)) = nonnop (sent (c_own c) used).
 Proof.
   intros Hw Hall H. destruct (pc_next_spec _ _ _ _ Hw Hall H) as [used [H1 [H2 [H3 H4]]]].
   exists used. split; [exact H1|]. split; [exact H2|]. split; [|exact H3].
   destruct Hw as [Hi _]. destruct (recv_client_spec _ _ Hi H4) as [R1 _].
-  rewrite R1, <- flat_map_direct'_nonnop, H3, flat_map_direct'_nonnop, flat_map_direct. reflexivity.
+  rewrite R1, <- flat_map_direct'_nonnop, H3, flat_map_direct'_nonnop. apply (sent_direct noreg).
+  destruct Hall as [Hall _]. rewrite H1 in Hall. apply Forall_app in Hall. apply Hall.
 Qed.
 
 (* polls with nothing pending yield keep-alives only and deliver nothing *)
@@ -1832,10 +1978,10 @@ Lemma pc_polls_idle c : wf_conf c -> forall n st s,
 Proof.
   intro Hw. induction n as [|n IH]; intros st s Hp Hin; [destruct Hin|].
   cbn [pc_polls] in Hin. destruct (pc_next c st) as [[tx|] st'] eqn:E; [|destruct Hin].
-  assert (Hall : Forall (src_ok noreg (c_own c)) (pending st)) by (rewrite Hp; constructor).
+  assert (Hall : qok c noreg (pending st)) by (rewrite Hp; apply qok_nil).
   destruct (pc_step_spec _ _ _ _ Hw Hall E) as [used [H1 [_ [H3 H4]]]].
   rewrite Hp in H1. symmetry in H1. apply app_eq_nil in H1. destruct H1 as [Hu Hp']. subst used.
-  destruct (recv_client (c_own c) tx) as [d e]. cbn [fst flat_map] in H3. apply map_eq_nil in H3. subst d.
+  destruct (recv_client (c_own c) tx) as [d e]. cbn [fst flatten flat_map] in H3. apply map_eq_nil in H3. subst d.
   destruct Hin as [Hs|Hin].
   - subst s. cbn [st_dlv st_tx st_after]. split; [reflexivity|]. split; [exact H4|exact Hp'].
   - exact (IH _ _ Hp' Hin).
@@ -1861,17 +2007,16 @@ Qed.
 
 (* drain_delivers_queue for the proxy's queue, extra polls included *)
 Lemma pc_drain_fuel_delivers c extra : wf_conf c -> forall fuel st,
-  (length (pending st) < fuel)%nat -> Forall (src_ok noreg (c_own c)) (pending st) ->
-  map untag_d (deliveries (pc_drain_fuel c extra fuel st)) = flat_map (direct (c_own c)) (pending st).
+  (length (pending st) < fuel)%nat -> qok c noreg (pending st) ->
+  map untag_d (deliveries (pc_drain_fuel c extra fuel st)) = flat_map (direct (c_own c)) (flatten (pending st)).
 Proof.
   intro Hw. induction fuel as [|f IH]; intros st Hf Hall; [lia|].
   cbn [pc_drain_fuel]. destruct (pc_next c st) as [[tx|] st'] eqn:E.
   - destruct (pc_step_spec _ _ _ _ Hw Hall E) as [used [H1 [H2 [H3 _]]]].
     destruct (recv_client (c_own c) tx) as [d e]. cbn [fst] in H3.
     rewrite deliveries_cons. cbn [st_dlv]. rewrite map_app, H3.
-    replace (flat_map (direct (c_own c)) (pending st)) with (flat_map (direct (c_own c)) (used ++ pending st'))
-      by (rewrite <- H1; reflexivity).
-    rewrite flat_map_app. f_equal.
+    replace (flatten (pending st)) with (flatten (used ++ pending st')) by (rewrite <- H1; reflexivity).
+    rewrite flatten_app, flat_map_app. f_equal.
     destruct (is_nil (pending st')) eqn:En.
     + assert (Hp' : pending st' = []) by (destruct (pending st'); [reflexivity|discriminate]).
       rewrite (pc_polls_deliver_nothing c Hw extra st' Hp'), Hp'. reflexivity.
@@ -1880,15 +2025,27 @@ Proof.
         rewrite H1 in En. discriminate. }
       apply IH.
       * specialize (H2 Hne). rewrite H1, app_length in Hf. destruct used; [congruence|]. cbn [length] in Hf. lia.
-      * rewrite H1 in Hall. apply Forall_suffix in Hall. exact Hall.
+      * rewrite H1 in Hall. apply qok_suffix in Hall. exact Hall.
   - apply pc_next_none in E. rewrite E. reflexivity.
 Qed.
 
-Lemma pc_queue_src_ok i q :
-  Forall (fun p => queueable p = true) q -> Forall (fun p => is_own i p = true) q -> Forall (src_ok noreg i) q.
+Lemma pc_queue_qok c q :
+  wf_conf c -> Forall (fun p => queueable p = true) q -> Forall (fun p => is_own (c_own c) p = true) q ->
+  qok c noreg q.
 Proof.
-  intros H1 H2. rewrite Forall_forall in *. intros p Hp.
-  split; [apply queueable_packable; apply H1; exact Hp|left; apply H2; exact Hp].
+  intros [Hi HNP] H1 H2. split.
+  - rewrite Forall_forall in *. intros p Hp.
+    apply src_ok_plain; [exact Hi|apply queueable_packable; apply H1; exact Hp|left; apply H2; exact Hp].
+  - apply qbound_plain; [exact HNP|apply queueable_plain; exact H1].
+Qed.
+
+(* the proxy's queue may hold containers as well (the batch the server sent for the client) *)
+Lemma pc_drain_delivers_items c extra q :
+  wf_conf c -> Forall (fun p => item_ok noreg (c_own c) p = true) q -> len (flatten q) <= FRAG_MAX ->
+  map untag_d (deliveries (pc_drain c extra (mkS q None 0))) = flat_map (direct (c_own c)) (flatten q).
+Proof.
+  intros Hw Hq HB. unfold pc_drain.
+  rewrite (pc_drain_fuel_delivers c extra Hw); [reflexivity|lia|]. apply items_qok; assumption.
 Qed.
 
 Lemma pc_drain_delivers_queue c extra q :
@@ -1896,7 +2053,8 @@ Lemma pc_drain_delivers_queue c extra q :
   map untag_d (deliveries (pc_drain c extra (mkS q None 0))) = flat_map (direct (c_own c)) q.
 Proof.
   intros Hw Hq Ho. unfold pc_drain.
-  rewrite (pc_drain_fuel_delivers c extra Hw); [reflexivity|lia|]. apply pc_queue_src_ok; assumption.
+  rewrite (pc_drain_fuel_delivers c extra Hw); [|lia|apply pc_queue_qok; assumption].
+  cbn [pending s_peek s_q]. rewrite flatten_plain; [reflexivity|apply queueable_plain; exact Hq].
 Qed.
 
 Lemma pc_drain_delivers_plain c extra q :
@@ -1950,12 +2108,15 @@ Proof.
     as [[o' k'] r'] eqn:EL.
   inversion EN; subst. clear EN.
   pose proof (np_loop_carry _ _ _ _ _ _ _ _ _ _ EL) as Hknop.
-  destruct (np_loop_struct _ _ _ _ _ _ _ _ _ _ EL Hp) as [used [kept [S1 _]]].
+  destruct (np_loop_struct_plain0 _ _ _ _ _ _ _ EL Hp ltac:(lia)) as [used [kept [S1 _]]].
   assert (Hkin : In k (n0 :: q)) by (rewrite S1; apply in_or_app; right; left; reflexivity).
   assert (Hprest : Forall (fun p => packable p = true) (k :: rest)).
   { rewrite S1 in Hp. apply Forall_suffix in Hp. exact Hp. }
   split; [rewrite Hpe; exact Hkin|].
   unfold pc_next, pick. cbn [s_peek s_q].
+  assert (Hka : as_tx (norm (c_own c) k) = TSingle (norm (c_own c) k)).
+  { apply as_tx_packable_norm. inversion Hprest; assumption. }
+  rewrite Hka.
   destruct (is_nil rest && is_own (c_own c) k).
   { eexists _, _. split; [reflexivity|]. split; [eexists; split; reflexivity|]. intros k' Hk'. discriminate. }
   destruct (next_packet (c_frag c) (c_packets c) (c_own c) (Some k) rest (p_tags k)) as [[o2 k2] rest2] eqn:EN2.
@@ -1964,13 +2125,13 @@ Proof.
   - apply (next_packet_first _ _ _ _ _ _ _ _ _ EN2 Hknop Hprest).
   - cbn [s_peek]. intros k' Hk'. subst k2.
     unfold next_packet in EN2.
-    destruct ((c_packets c <=? 1) || is_nil rest); [destruct (is_own (c_own c) k); inversion EN2|].
+    destruct ((c_packets c <=? 1) || is_nil rest) eqn:Efast2; [destruct (is_own (c_own c) k); inversion EN2|].
     destruct (np_loop (c_frag c) (c_own c) (Z.to_nat (c_packets c)) (k :: rest) 0 false (mkC (c_own c) fl_multi [] []))
       as [[o3 k3] r3] eqn:EL2.
     inversion EN2; subst.
-    destruct (np_loop_struct _ _ _ _ _ _ _ _ _ _ EL2 Hprest) as [used2 [kept2 [T1 [_ [_ [_ [_ [_ [_ T8]]]]]]]]].
+    destruct (np_loop_struct_plain0 _ _ _ _ _ _ _ EL2 Hprest ltac:(lia)) as [used2 [kept2 [T1 [_ [_ [T8 _]]]]]].
     assert (Hfuel : Z.to_nat (c_packets c) <> O) by (apply orb_false_elim in Efast; lia).
-    specialize (T8 eq_refl Hfuel ltac:(discriminate)).
+    specialize (T8 Hfuel ltac:(discriminate)).
     destruct used2 as [|x u2]; [congruence|]. cbn [app optl] in T1. injection T1 as _ T1.
     rewrite T1. apply in_or_app. right. left. reflexivity.
 Qed.
